@@ -136,6 +136,46 @@ def gen_waitsites():
     return ok, msg
 
 
+def gen_accesssites():
+    """Regenerate coq/Generated/AccessSites.v from the TYPE-CHECKED SOURCE of the
+    checkout (VERIF_REPO when set, else /repo; translator: harness/cmd/genaccess,
+    golang.org/x/tools/go/packages + go/types).  coq/C18/Tie.v ties the C18
+    table of shared variables and their synchronisation disciplines to it.
+    Returns (ok, message)."""
+    src = os.path.join(HARNESS, "cmd", "genaccess")
+    if not os.path.isdir(src):
+        return True, "no translator"
+    if not os.path.exists(os.path.join(COQ, "C18", "AccessTypes.v")):
+        return True, "no C18 development"
+    os.makedirs(os.path.join(WORK, "bin"), exist_ok=True)
+    binp = os.path.join(WORK, "bin", "genaccess")
+    with Lock("gobuild-genaccess"):
+        rc, out = sh(["go", "build", "-o", binp, "./cmd/genaccess"], cwd=HARNESS, env=GOENV, timeout=600)
+    if rc != 0:
+        return False, "genaccess does not build:\n" + out
+    p = subprocess.run([binp, "-repo", ALT_REPO or "/repo"], env=GOENV, stdout=subprocess.PIPE, stderr=subprocess.PIPE, text=True, timeout=300)
+    rc, out, err = p.returncode, p.stdout, p.stderr
+    ok, msg = True, "ok"
+    if rc != 0 or "Definition access_sites" not in out:
+        # the source does not load / type-check: leave a table that makes the
+        # tie fail with a name instead of a stale one
+        ok, msg = False, "genaccess failed:\n" + (err or out)[-3000:]
+        out = ("(* GENERATED: harness/cmd/genaccess FAILED on this checkout. *)\n"
+               "From Coq Require Import String List.\nFrom Verif Require Import C18.AccessTypes.\n"
+               "Import ListNotations.\nOpen Scope string_scope.\n"
+               "Definition access_sites : list asite := [mkA \"genaccess failed\" \"genaccess failed\" \"\" KWrite [] [] false false false []].\n"
+               "Definition field_summary : list fsum := [].\n"
+               "Definition fn_requires : list (string * list (string * lmode)) := [].\n"
+               "Definition unresolved_calls : list (string * string) := [].\n"
+               "Definition goroutine_roots : list string := [].\n")
+    p = os.path.join(COQ, "Generated", "AccessSites.v")
+    old = open(p).read() if os.path.exists(p) else ""
+    if old != out:
+        os.makedirs(os.path.dirname(p), exist_ok=True)
+        open(p, "w").write(out)
+    return ok, msg
+
+
 _MOD = r"[A-Za-z0-9_']+(?:\.[A-Za-z0-9_']+)*"
 _REQ = re.compile(r"From\s+Verif\s+Require\s+(?:Import\s+|Export\s+)?(" + _MOD + r"(?:\s+" + _MOD + r")*)\s*\.(?=\s|$)")
 
@@ -189,6 +229,7 @@ def ensure_coq(jobs=16, prop=None):
     with Lock("coq"):
         okc, msgc = gen_consts()
         okw, msgw = gen_waitsites()
+        oka, msga = gen_accesssites()
         changed = gen_coqproject()
         mk = os.path.join(COQ, "Makefile.coq")
         if changed or not os.path.exists(mk):
@@ -196,11 +237,11 @@ def ensure_coq(jobs=16, prop=None):
             if rc != 0:
                 return False, out, []
         rc, out = sh(["make", "-f", "Makefile.coq", "-j%d" % jobs, "-k"], cwd=COQ, timeout=3000)
-        log = ("" if okc else msgc + "\n") + ("" if okw else msgw + "\n") + out
+        log = ("" if okc else msgc + "\n") + ("" if okw else msgw + "\n") + ("" if oka else msga + "\n") + out
         current = []
         if prop is not None:
             current = [rel for rel in REGISTRY[prop]["properties_files"] if vo_current(os.path.join(COQ, rel))]
-        return (rc == 0 and okc and okw), log, current
+        return (rc == 0 and okc and okw and oka), log, current
 
 
 def coq_errors(log, files):
